@@ -139,6 +139,9 @@ struct Ctx {
     viol: Vec<(String, String)>,
     r_const: usize,
     monitors: bool,
+    /// when searching for a failing input: after every call, compare every read-only view of
+    /// every map with the reference and with one another, under this property's name
+    probe: Option<String>,
     // an undocumented panic happened: the map may be corrupt, the history is abandoned
     abort: bool,
     tab_allocs: u64,
@@ -247,7 +250,43 @@ struct OpSpec {
 }
 
 /// Executes one operation on the real crate, records it, runs the per-call monitors.
+/// the state the previous call left (the reference is up to date by now), seen through every
+/// read-only view: used when a proof or the correspondence broke and a failing input is sought
+fn probe_views(cx: &mut Ctx) {
+    let prop = match (&cx.probe, cx.monitors) {
+        (Some(p), true) => p.clone(),
+        _ => return,
+    };
+    for s in 0..cx.maps.len() {
+        if cx.maps[s].is_none() || cx.refs[s].is_none() || cx.poisoned[s] {
+            continue;
+        }
+        check_contents(cx, s, &prop, "the previous call");
+        let m = cx.maps[s].as_ref().unwrap();
+        if m.len() > 4096 {
+            continue;
+        }
+        let mut it: Vec<(u64, u64)> = m.iter().map(|(k, v)| (k.class, v.get())).collect();
+        it.sort();
+        let mut ks: Vec<u64> = m.keys().map(|k| k.class).collect();
+        ks.sort();
+        let mut vs: Vec<u64> = m.values().map(|v| v.get()).collect();
+        vs.sort();
+        let mut vs2: Vec<u64> = it.iter().map(|x| x.1).collect();
+        vs2.sort();
+        let dbg = format!("{:?}", m).matches(": ").count();
+        if it.len() != m.len() || m.iter().len() != m.len() || ks != it.iter().map(|x| x.0).collect::<Vec<_>>() || vs != vs2 || dbg != m.len() || (m == m) != true {
+            vio(&prop, format!("slot {} after the previous call: len() {}, iter() yields {}, keys() {}, values() {}, Debug shows {} entries", s, m.len(), it.len(), ks.len(), vs.len(), dbg));
+        }
+    }
+}
+
 fn run_op(cx: &mut Ctx, spec: OpSpec, body: impl FnOnce(&mut Ctx) -> Out) -> Out {
+    if cx.probe.is_some() {
+        let w = WHERE.with(|w| w.borrow().clone());
+        probe_views(cx);
+        let _ = w;
+    }
     cx.opi += 1;
     WHERE.with(|w| *w.borrow_mut() = format!("history={} op#{}", cx.hist_id, cx.opi));
     cx.bump(&format!("op:{}", spec.kind));
@@ -1502,6 +1541,21 @@ fn op_eq_with(cx: &mut Ctx, a: usize, b: usize, pool: Option<usize>) -> Out {
         if out != Out::B(ra == rb) {
             vio("C14", format!("== returned {:?} but contents equal is {}", out, ra == rb));
         }
+        // symmetry, and agreement of the read-only views of each operand with one another
+        let (ma, mb) = (cx.maps[a].as_ref().unwrap(), cx.maps[b].as_ref().unwrap());
+        if pool.is_none() && (ma == mb) != (mb == ma) {
+            vio("C14", format!("== is not symmetric between slots {} and {}", a, b));
+        }
+        for (s, m) in [(a, ma), (b, mb)] {
+            if m.len() <= 4096 {
+                let mut it: Vec<(u64, u64)> = m.iter().map(|(k, v)| (k.class, v.get())).collect();
+                it.sort();
+                let by_get: Vec<(u64, u64)> = it.iter().filter_map(|(k, _)| m.get(&K::new(*k, 0)).map(|v| (*k, v.get()))).collect();
+                if it.len() != m.len() || by_get != it || format!("{:?}", m).matches(": ").count() != m.len() {
+                    vio("C14", format!("slot {}: len() {}, iter() yields {} entries, {} of them found by get, Debug shows {}", s, m.len(), it.len(), by_get.len(), format!("{:?}", m).matches(": ").count()));
+                }
+            }
+        }
     }
     out
 }
@@ -1969,6 +2023,7 @@ fn main() {
     let mut outp = "-".to_string();
     let mut maxops = 120u64;
     let mut monitors = true;
+    let mut probe: Option<String> = None;
     let mut statsp: Option<String> = None;
     let mut only: Option<u64> = None;
     let mut progressp: Option<String> = None;
@@ -1984,6 +2039,7 @@ fn main() {
             "--progress" => { progressp = Some(args[i + 1].clone()); i += 1 }
             "--only" => { only = Some(args[i + 1].parse().unwrap()); i += 1 }
             "--no-monitors" => monitors = false,
+            "--probe" => { probe = Some(args[i + 1].clone()); i += 1 }
             x => panic!("unknown argument {}", x),
         }
         i += 1;
@@ -2062,6 +2118,7 @@ fn main() {
             viol: Vec::new(),
             r_const: 8,
             monitors,
+            probe: probe.clone(),
             abort: false,
             tab_allocs: 0,
             tab_frees: 0,
